@@ -509,7 +509,7 @@ func runPlan(p Plan) (vk.Outcome, error) {
 		if dead {
 			out.Label("answered-after-a-panic")
 		}
-		if mustPanic {
+		if mustPanic && !ended { // (an iterator that has already finished may also just stay finished)
 			return vk.Violf("no-panic-after-add-remove", "%s: an element was added/removed after iteration had started, yet Next returned (%v,%v) instead of panicking; history %v",
 				what, v, ok, history)
 		}
@@ -533,7 +533,7 @@ func runPlan(p Plan) (vk.Outcome, error) {
 		return nil
 	}
 	size := len(s0)
-	j := p.J % (size + 1)
+	j := p.J % (size + 2) // size+1: one call past the end, so that the iterator has finished before the mid ops
 	for i := 0; i < j && !dead; i++ {
 		if err := call(fmt.Sprintf("Next #%d", i+1)); err != nil {
 			return out, err
